@@ -116,6 +116,21 @@ def select_matrix(steps=1, engine=0, bases=("leaf", "sel", "chain", "join")):
                         names.append(ops[i][0])
                     if ok:
                         yield (f"{dname}/{base}/[{state}]/" + ">".join(names), (UNIVERSE, leaves, p))
+        if steps == 1 and "join" in bases and engine == 0:
+            # joins of two projected operands: every pair of projections (each keeping the join key a), so that each side
+            # may hide a column the other side still shows - one-sided and mutual clashes of hidden columns - optionally
+            # below a deduplication or selection; the two leaves hold different values under the same column names
+            subsets = ((A,), (A, B), (C, A), (A, B, C))
+            wraps = (None, ("dedup",), ("sel", ("ge", R(A), ("lit", 1))))
+            for pl, pr in itertools.product(subsets, subsets):
+                for wl, wr in itertools.product(wraps, wraps):
+                    lhs, rhs = ("proj", ("leaf", 0), pl), ("proj", ("leaf", 1), pr)
+                    if wl is not None:
+                        lhs = _apply(wl, lhs)
+                    if wr is not None:
+                        rhs = _apply(wr, rhs)
+                    yield (f"{dname}/projected-join/{len(pl)}x{len(pr)}", (UNIVERSE, leaves, ("join", lhs, rhs, None)))
+                    yield (f"{dname}/projected-join/{len(pl)}x{len(pr)}/swapped", (UNIVERSE, leaves, ("join", rhs, lhs, None)))
         if steps == 1:
             # a calculated column as the only carrier of a column the projection hid: calculation, projection hiding its
             # input, deduplication, projection dropping the calculated column (the last projection must not be folded
